@@ -36,8 +36,12 @@ def node(op, ins, attrs=None, n_out=1, name=None, outs=None, domain="", overload
 def model(inputs, outputs, nodes, inits=(), functions=(), name="g", opsets=None, ir_version=10):
     g = ir.Graph(inputs, outputs, nodes=nodes, initializers=list(inits), opset_imports=opsets or {"": OPSET}, name=name)
     m = ir.Model(g, ir_version=ir_version, functions=list(functions), producer_name="verif")
-    _infer_output_shapes(m)
+    if INFER_SHAPES:
+        _infer_output_shapes(m)
     return m
+
+
+INFER_SHAPES = True   # checks that never hand the model to the ONNX checker may switch this construction aid off
 
 
 def _infer_output_shapes(m):
